@@ -66,6 +66,27 @@ CHECKS = {
             'Trusted: refstar()/children() in vf/props/c14.py. Containers in generated graphs are slot-based recording '
             'subclasses (no instance __dict__, see known finding F14). Bounds: graph depth <= 4, <= 3 wildcards, at most two **.',
             'DESIGN.md section 4 / C14'),
+    'C11': ('Hypothesis-generated targets and destination paths obtained by walking the target (prefix stops existing at '
+            'every position), all spellings, value kinds and missing factories vs plain Python assignment on an '
+            'independently built copy; structure-and-identity snapshots decide atomicity and the frame condition',
+            'Generated-input differential testing: success => same object returned, final structure equals the plain '
+            'Python assignment, read-back yields the value (the source object itself for T/Spec values), every position '
+            'that keeps its identity under plain assignment keeps it under glom, factory called once per absent segment; '
+            'failure (absent parent, refused assignment, immutable container, read-only property, raising factory) => an '
+            'error and a bit-identical snapshot. Assign through 1-3 wildcards shares the C14 oracle.',
+            'Trusted: ref_assign() in vf/props/c11.py, snapshots in vf/targets.py. Targets are tree-shaped; recording '
+            'containers are slot-based (no instance __dict__, see F14). Bounds: depth <= 3, path length <= 4.',
+            'DESIGN.md section 4 / C11'),
+    'C12': ('Hypothesis-generated targets and paths obtained by walking the target (parent/final element present or absent '
+            'at every position, boundary out-of-range indexes), all spellings, ignore_missing on/off, vs Python del on an '
+            'independently built copy; snapshots decide "or nothing"',
+            'Generated-input differential testing: success => same object returned and exactly the effect of del (later '
+            'items shift, identities elsewhere preserved); absent final => PathDeleteError, absent parent => '
+            'PathAccessError, both with an unchanged snapshot; ignore_missing=True => silent no-op; refused deletions => '
+            'error and unchanged snapshot. Delete through 1-3 wildcards shares the C14 oracle.',
+            'Trusted: ref_delete() in vf/props/c12.py. Under ignore_missing=True a *refused* deletion (fault) is only required '
+            'to leave the target unchanged. Bounds: depth <= 3, path length <= 4.',
+            'DESIGN.md section 4 / C12'),
 }
 
 NOT_YET = 'check not built yet in this session (design in DESIGN.md section 4); will be claimed once its check is quiet on the unchanged tree'
